@@ -3,7 +3,7 @@ use std::marker::PhantomData;
 #[allow(unused_imports)] use any_vec::traits::{Cloneable, None as TNone};
 #[allow(unused_imports)] use anyvec_mc::elem::*;
 use anyvec_mc::exec::{Cfg, Runner};
-#[allow(unused_imports)] use anyvec_mc::track::{Track, TrackFence, TrackFixed, TrackTight};
+#[allow(unused_imports)] use anyvec_mc::track::{Track, TrackFence, TrackFixed, TrackTight, TrackWarm};
 use anyvec_mc::Entry;
 #[cfg(feature = "alloc")] #[allow(unused_imports)] use any_vec::mem::Heap;
 
@@ -23,6 +23,7 @@ fn cfgs() -> Vec<Entry> {
     c!(v, true,"fixed",B1D,StackN<3, 3>,dyn Cloneable);
     c!(v, true,"fixed",W8D,StackN<3, 40>,dyn Cloneable); // slack: SIZE / N is not the element size
     c!(v, true,"fixed",W8D,TrackFixed<4>,dyn Cloneable);
+    c!(v, true,"general",W8D,TrackWarm,dyn Cloneable);
     v
 }
 fn main() { anyvec_mc::main_with(cfgs) }
